@@ -7676,3 +7676,57 @@ def own2(m, run, classes, rule='OWN2.new-objects-share-no-mutable-state'):
             raise AnalysisError('%s: interpreter met an unsupported construct: %s' % (key, ex))
         ci = m.classes[cls]
         run.ob(rule, key, why is None, 'two new objects reach disjoint lists and dictionaries' if why is None else why, 'geomdl/%s.py:%d class %s' % (cls[0], ci.node.lineno, cls[1]))
+
+
+# ====================================================================================== C02: normalisation of a vector
+def vn2(m, run, rule='VN2.normalised-vector-is-v-over-its-length'):
+    """VN2: linalg.vector_normalize and vector_magnitude interpreted on vectors of symbolic atoms (2-D and 3-D, exact arithmetic, the rounding
+    to the default number of decimals through a formatted string handed back as the value, both outcomes of every comparison the atoms
+    leave open): vector_magnitude is sqrt(v . v); on every path vector_normalize either raises (the zero vector has no direction) or
+    returns v_i / sqrt(v . v) for every coordinate, in a new list -- no vector, however close its length is to one, is handed back as
+    it came"""
+    from .skel import Sym
+    from .poly import Poly
+    fn_, fm_ = m.func('linalg.vector_normalize'), m.func('linalg.vector_magnitude')
+    for dim in (3, 2):
+        V = [Poly.atom('v%d' % i) for i in range(dim)]
+        ss = Poly()
+        for x in V:
+            ss = ss + x * x
+        length = Sym('sqrt(%r)' % (ss,))
+
+        def make_sk():
+            sk = SK(m, {})
+            sk.exact = True
+            sk.text = True
+            return sk
+
+        def scen_mag(sk):
+            out = sk.call(fm_, [[Sym(x) for x in V]], {})
+            s_ = _as_sym(out)
+            if s_ is None or not s_.same(length):
+                return 'returns %s, the length of v is %r' % (repr(out)[:120], length)
+            return None
+
+        def scen_norm(sk):
+            inp = [Sym(x) for x in V]
+            try:
+                out = sk.call(fn_, [inp], {})
+            except Raised:
+                return None
+            except Violation as v:
+                if v.rule == 'RAISE':
+                    return None
+                raise
+            if not isinstance(out, list) or len(out) != dim:
+                return 'returns %s' % repr(out)[:120]
+            if out is inp:
+                return 'returns the input list itself'
+            for i, (g_, x) in enumerate(zip(out, V)):
+                s_ = _as_sym(g_)
+                if s_ is None or not Sym(s_.p * length.p, s_.q).same(Sym(x)):
+                    return 'coordinate %d of the result is %s, v_%d / |v| is (%r) / (%r)' % (i, repr(g_)[:100], i, x, length.p)
+            return None
+        for fi, scen, what in ((fm_, scen_mag, 'sqrt(v . v)'), (fn_, scen_norm, 'v / |v| on every path that returns')):
+            why = forked(make_sk, scen, fi.key, max_paths=64)
+            run.ob(rule, '%s :: %d-D' % (fi.key, dim), why is None, what if why is None else why, 'geomdl/linalg.py:%d in %s' % (fi.node.lineno, fi.key))
